@@ -139,6 +139,10 @@ func init() {
 	c05 := props["C05"]
 	c05.quickS = 35
 	props["C05"] = c05
+	c02 := props["C02"]
+	c02.quickS, c02.level = 40, "fault_enumeration"
+	c02.rule = "cases are simulated runs, each carrying 6 mutated frames on their own connections between valid requests, next to bystander connections; run i < blocks carries the i-th block of the complete single-point mutation enumeration (every node of each of 7 operations x 16 control shapes x {18 replacement node kinds, delete, duplicate, swap, truncate/extend children, 5 length corruptions, flipped constructed bit, empty/long value}); later runs carry seeded double mutations and byte damage; non-trivial = the run carried at least one mutant; distinct = schedule signature"
+	props["C02"] = c02
 }
 
 func env() []string {
@@ -734,6 +738,10 @@ func check(prop, tier string, seed uint64) int {
 		total.StepCaps += s.StepCaps
 		total.Leaks += s.Leaks
 		for k, v := range s.Probes {
+			if strings.HasSuffix(k, "-total") {
+				total.Probes[k] = v
+				continue
+			}
 			total.Probes[k] += v
 		}
 		for k, v := range s.Faults {
@@ -887,6 +895,13 @@ func check(prop, tier string, seed uint64) int {
 		"race_detector":                                        info.race,
 		"race_reports_total":                                   len(b.races),
 		"race_reports_discarded_as_harness_noise":              raceNoise,
+	}
+	if prop == "C02" {
+		blocks, done := total.Probes["C02-single-point-blocks-total"], total.Probes["C02-single-point-block"]
+		cov["single_point_mutation_blocks"] = blocks
+		cov["single_point_mutation_blocks_run"] = done
+		cov["exhaustive"] = blocks > 0 && done >= blocks
+		cov["explanation"] = "exhaustive refers to the single-point mutation space only (every node of every canonical request x every mutation kind); double mutations and byte damage beyond it are sampled"
 	}
 	ev["coverage"] = cov
 	os.MkdirAll(verifDir+"/evidence", 0o755)
